@@ -17,6 +17,7 @@ theorem step_call (s : SfSt) (c key n : Nat) (o : Outcome) : step s (.call c key
 theorem step_bodyStep (s : SfSt) (e : Nat) : step s (.bodyStep e) = stepBody s e := rfl
 theorem step_finish (s : SfSt) (e : Nat) : step s (.finish e) = stepFinish s e := rfl
 theorem step_cancel (s : SfSt) (c : Nat) : step s (.cancel c) = stepCancel s c := rfl
+theorem step_tick (s : SfSt) (d : Nat) : step s (.tick d) = { s with now := s.now + d } := rfl
 
 /-- what a caller's state says about the execution it joined -/
 def CallerOk (x : Exec) (st : CSt) : Prop :=
@@ -35,7 +36,7 @@ structure Inv (s : SfSt) : Prop where
   /-- a caller that joined `e` is cancelled, or still waiting on the unfinished `e`, or holds exactly `e`'s outcome -/
   joined : ∀ c e st, s.callers c = some ⟨some e, st⟩ → ∃ x, s.execs e = some x ∧ CallerOk x st
 
-theorem inv_init (b : Bool) : Inv (init b) := by
+theorem inv_init (b : Bool) (T : Nat) : Inv (init b T) := by
   constructor <;> simp [init]
 
 theorem deliver_apply (callers : Nat → Option Caller) (e : Nat) (o : Outcome) (c : Nat) :
@@ -356,6 +357,7 @@ theorem inv_step (s : SfSt) (h : Inv s) (a : Act) : Inv (step s a) := by
   | bodyStep e => exact inv_bodyStep s h e
   | finish e => exact inv_finish s h e
   | cancel c => exact inv_cancel s h c
+  | tick d => exact ⟨h.reg, h.tab, h.fresh, h.mem, h.nodup, h.joined⟩
 
 theorem inv_run (s : SfSt) (h : Inv s) (tr : List Act) : Inv (run s tr) := by
   induction tr generalizing s with
@@ -436,6 +438,8 @@ structure Agree (c : Nat) (s1 s2 : SfSt) : Prop where
   others : ∀ c', c' ≠ c → s1.callers c' = s2.callers c'
   here1 : s1.callers c ≠ none
   here2 : s2.callers c ≠ none
+  ttl : s1.ttl = s2.ttl
+  now : s1.now = s2.now
 
 theorem stepCancel_frame (s : SfSt) (c : Nat) :
     (stepCancel s c).caching = s.caching ∧ (stepCancel s c).table = s.table ∧
@@ -459,6 +463,10 @@ theorem cancel_frame (s : SfSt) (c : Nat) :
     (∀ c', c' ≠ c → (step s (.cancel c)).callers c' = s.callers c') ∧
     (step s (.cancel c)).callers c ≠ none := stepCancel_frame s c
 
+theorem stepCancel_clock (s : SfSt) (c : Nat) : (stepCancel s c).ttl = s.ttl ∧ (stepCancel s c).now = s.now := by
+  unfold stepCancel
+  split <;> exact ⟨rfl, rfl⟩
+
 theorem stepCall_used (s : SfSt) (c key n : Nat) (o : Outcome) (h : s.callers c ≠ none) : stepCall s c key n o = s := by
   unfold stepCall
   cases hh : s.callers c with
@@ -467,21 +475,21 @@ theorem stepCall_used (s : SfSt) (c key n : Nat) (o : Outcome) (h : s.callers c 
 
 theorem agree_call (c : Nat) (s1 s2 : SfSt) (h : Agree c s1 s2) (c' key n : Nat) (o : Outcome) :
     Agree c (stepCall s1 c' key n o) (stepCall s2 c' key n o) := by
-  obtain ⟨hca, ht, he, hcd, hcr, ho, h1, h2⟩ := h
+  obtain ⟨hca, ht, he, hcd, hcr, ho, h1, h2, htt, hnw⟩ := h
   by_cases hcc : c' = c
   · subst hcc
     rw [stepCall_used s1 c' key n o h1, stepCall_used s2 c' key n o h2]
-    exact ⟨hca, ht, he, hcd, hcr, ho, h1, h2⟩
+    exact ⟨hca, ht, he, hcd, hcr, ho, h1, h2, htt, hnw⟩
   · have hsame := ho c' hcc
     unfold stepCall
     rw [← hsame, ← ht]
     cases hh : s1.callers c' with
-    | some _ => exact ⟨hca, ht, he, hcd, hcr, ho, h1, h2⟩
+    | some _ => exact ⟨hca, ht, he, hcd, hcr, ho, h1, h2, htt, hnw⟩
     | none =>
       cases hk : s1.table key with
       | some e =>
         dsimp only
-        refine ⟨hca, rfl, he, hcd, hcr, ?_, ?_, ?_⟩
+        refine ⟨hca, rfl, he, hcd, hcr, ?_, ?_, ?_, htt, hnw⟩
         · intro c'' hc''
           simp only [upd_apply]
           split
@@ -491,9 +499,9 @@ theorem agree_call (c : Nat) (s1 s2 : SfSt) (h : Agree c s1 s2) (c' key n : Nat)
         · simp only [upd_apply]; split <;> simp [h2]
       | none =>
         have hne : newExec s1 key n o = newExec s2 key n o := by
-          unfold newExec; rw [hca, hcd]
+          unfold newExec lookupCached; rw [hca, hcd, hnw]
         dsimp only
-        refine ⟨hca, ?_, ?_, hcd, ?_, ?_, ?_, ?_⟩
+        refine ⟨hca, ?_, ?_, hcd, ?_, ?_, ?_, ?_, htt, hnw⟩
         · first | rfl | simp only [ht]
         · first | rfl | simp only [he, hne]
         · first | rfl | simp only [hcr]
@@ -507,29 +515,29 @@ theorem agree_call (c : Nat) (s1 s2 : SfSt) (h : Agree c s1 s2) (c' key n : Nat)
 
 theorem agree_body (c : Nat) (s1 s2 : SfSt) (h : Agree c s1 s2) (e : Nat) :
     Agree c (stepBody s1 e) (stepBody s2 e) := by
-  obtain ⟨hca, ht, he, hcd, hcr, ho, h1, h2⟩ := h
+  obtain ⟨hca, ht, he, hcd, hcr, ho, h1, h2, htt, hnw⟩ := h
   unfold stepBody
   rw [← he]
   cases hx : s1.execs e with
-  | none => exact ⟨hca, ht, he, hcd, hcr, ho, h1, h2⟩
+  | none => exact ⟨hca, ht, he, hcd, hcr, ho, h1, h2, htt, hnw⟩
   | some x =>
     simp only
     split
-    · exact ⟨hca, ht, he, hcd, hcr, ho, h1, h2⟩
-    · exact ⟨hca, ht, by first | rfl | simp only [he], hcd, hcr, ho, h1, h2⟩
+    · exact ⟨hca, ht, he, hcd, hcr, ho, h1, h2, htt, hnw⟩
+    · exact ⟨hca, ht, by first | rfl | simp only [he], hcd, hcr, ho, h1, h2, htt, hnw⟩
 
 theorem agree_finish (c : Nat) (s1 s2 : SfSt) (h : Agree c s1 s2) (e : Nat) :
     Agree c (stepFinish s1 e) (stepFinish s2 e) := by
-  obtain ⟨hca, ht, he, hcd, hcr, ho, h1, h2⟩ := h
+  obtain ⟨hca, ht, he, hcd, hcr, ho, h1, h2, htt, hnw⟩ := h
   unfold stepFinish
   rw [← he]
   cases hx : s1.execs e with
-  | none => exact ⟨hca, ht, he, hcd, hcr, ho, h1, h2⟩
+  | none => exact ⟨hca, ht, he, hcd, hcr, ho, h1, h2, htt, hnw⟩
   | some x =>
     simp only
     split
-    · exact ⟨hca, ht, he, hcd, hcr, ho, h1, h2⟩
-    · refine ⟨hca, by first | rfl | simp only [ht], by first | rfl | simp only [he], by first | rfl | simp only [hca, hcd], hcr, ?_, ?_, ?_⟩
+    · exact ⟨hca, ht, he, hcd, hcr, ho, h1, h2, htt, hnw⟩
+    · refine ⟨hca, by first | rfl | simp only [ht], by first | rfl | simp only [he], by first | rfl | simp only [hca, hcd, htt, hnw], hcr, ?_, ?_, ?_, htt, hnw⟩
       · intro c' hc'
         simp only [deliver_apply]
         rw [ho c' hc']
@@ -550,15 +558,17 @@ theorem stepCancel_other (s : SfSt) (c c' : Nat) (_h : c' ≠ c) (hc : s.callers
 
 theorem agree_cancel (c : Nat) (s1 s2 : SfSt) (h : Agree c s1 s2) (c' : Nat) :
     Agree c (stepCancel s1 c') (stepCancel s2 c') := by
-  obtain ⟨hca, ht, he, hcd, hcr, ho, h1, h2⟩ := h
+  obtain ⟨hca, ht, he, hcd, hcr, ho, h1, h2, htt, hnw⟩ := h
   obtain ⟨a3, a4, a5, a6, a7, a2, a1⟩ := stepCancel_frame s1 c'
   obtain ⟨b3, b4, b5, b6, b7, b2, b1⟩ := stepCancel_frame s2 c'
+  obtain ⟨a8, a9⟩ := stepCancel_clock s1 c'
+  obtain ⟨b8, b9⟩ := stepCancel_clock s2 c'
   by_cases hcc : c' = c
   · subst hcc
     exact ⟨by rw [a3, b3, hca], by rw [a4, b4, ht], by rw [a5, b5, he], by rw [a6, b6, hcd], by rw [a7, b7, hcr],
-      fun c'' hc'' => by rw [a2 c'' hc'', b2 c'' hc'', ho c'' hc''], a1, b1⟩
+      fun c'' hc'' => by rw [a2 c'' hc'', b2 c'' hc'', ho c'' hc''], a1, b1, by rw [a8, b8, htt], by rw [a9, b9, hnw]⟩
   · refine ⟨by rw [a3, b3, hca], by rw [a4, b4, ht], by rw [a5, b5, he], by rw [a6, b6, hcd], by rw [a7, b7, hcr],
-      ?_, stepCancel_other s1 c c' hcc h1, stepCancel_other s2 c c' hcc h2⟩
+      ?_, stepCancel_other s1 c c' hcc h1, stepCancel_other s2 c c' hcc h2, by rw [a8, b8, htt], by rw [a9, b9, hnw]⟩
     intro c'' hc''
     by_cases h3 : c'' = c'
     · subst h3
@@ -574,6 +584,9 @@ theorem agree_step (c : Nat) (s1 s2 : SfSt) (h : Agree c s1 s2) (a : Act) : Agre
   | bodyStep e => exact agree_body c s1 s2 h e
   | finish e => exact agree_finish c s1 s2 h e
   | cancel c' => exact agree_cancel c s1 s2 h c'
+  | tick d =>
+    obtain ⟨hca, ht, he, hcd, hcr, ho, h1, h2, htt, hnw⟩ := h
+    exact ⟨hca, ht, he, hcd, hcr, ho, h1, h2, htt, by show s1.now + d = s2.now + d; rw [hnw]⟩
 
 theorem agree_run (c : Nat) (s1 s2 : SfSt) (h : Agree c s1 s2) (tr : List Act) : Agree c (run s1 tr) (run s2 tr) := by
   induction tr generalizing s1 s2 with
@@ -641,6 +654,7 @@ theorem exec_step (s : SfSt) (h : Inv s) (a : Act) (e : Nat) (x : Exec) (hx : s.
   | cancel c =>
     have := (stepCancel_frame s c).2.2.1
     exact ⟨x, by show (stepCancel s c).execs e = some x; rw [this]; exact hx, Exec.later_refl x⟩
+  | tick d => exact ⟨x, hx, Exec.later_refl x⟩
 
 theorem exec_run (s : SfSt) (h : Inv s) (tr : List Act) (e : Nat) (x : Exec) (hx : s.execs e = some x) :
     ∃ x', (run s tr).execs e = some x' ∧ Exec.Later x x' := by
@@ -694,6 +708,7 @@ theorem settled_step (s : SfSt) (a : Act) (c : Nat) (e : Option Nat) (st : CSt)
       | cancelled => simp [hc]
     · rw [(stepCancel_frame s c').2.2.2.2.2.1 c hcc]
       exact hc
+  | tick d => exact hc
 
 theorem settled_run (s : SfSt) (tr : List Act) (c : Nat) (e : Option Nat) (st : CSt)
     (hc : s.callers c = some ⟨e, st⟩) (hst : st ≠ .waiting) : (run s tr).callers c = some ⟨e, st⟩ := by
@@ -799,6 +814,7 @@ theorem attach_step (s : SfSt) (h : Inv s) (a : Act) (c e : Nat) (st : CSt)
       · exact ⟨st, hc0⟩
     · rw [(stepCancel_frame s c').2.2.2.2.2.1 c hcc] at hc0
       exact ⟨st, hc0⟩
+  | tick d => exact Or.inl ⟨st, hc⟩
 
 /-- after an execution has finished nobody new is ever attached to it -/
 theorem finished_no_new_waiters (s : SfSt) (h : Inv s) (tr : List Act) (e : Nat) (x : Exec)
@@ -816,6 +832,158 @@ theorem finished_no_new_waiters (s : SfSt) (h : Inv s) (tr : List Act) (e : Nat)
       subst hz
       rw [hl.2.2.2.1 hf] at hzf
       simp at hzf
+
+/-! ### time: `tick` is a stutter step of single-flight -/
+
+/-- a time step moves the clock and nothing else -/
+theorem tick_frame (s : SfSt) (d : Nat) :
+    (step s (.tick d)).caching = s.caching ∧ (step s (.tick d)).ttl = s.ttl ∧ (step s (.tick d)).table = s.table ∧
+    (step s (.tick d)).execs = s.execs ∧ (step s (.tick d)).callers = s.callers ∧
+    (step s (.tick d)).cached = s.cached ∧ (step s (.tick d)).created = s.created ∧
+    (step s (.tick d)).now = s.now + d := ⟨rfl, rfl, rfl, rfl, rfl, rfl, rfl, rfl⟩
+
+theorem run_ticks_frame (s : SfSt) (ds : List Nat) :
+    (run s (ds.map Act.tick)).caching = s.caching ∧ (run s (ds.map Act.tick)).ttl = s.ttl ∧
+    (run s (ds.map Act.tick)).table = s.table ∧ (run s (ds.map Act.tick)).execs = s.execs ∧
+    (run s (ds.map Act.tick)).callers = s.callers ∧ (run s (ds.map Act.tick)).cached = s.cached ∧
+    (run s (ds.map Act.tick)).created = s.created ∧ (run s (ds.map Act.tick)).now = s.now + ds.sum := by
+  induction ds generalizing s with
+  | nil => exact ⟨rfl, rfl, rfl, rfl, rfl, rfl, rfl, by simp [run]⟩
+  | cons d ds ih =>
+    obtain ⟨h1, h2, h3, h4, h5, h6, h7, h8⟩ := ih (step s (.tick d))
+    refine ⟨h1, h2, h3, h4, h5, h6, h7, ?_⟩
+    show (run (step s (.tick d)) (ds.map Act.tick)).now = _
+    rw [h8, List.sum_cons]
+    show s.now + d + ds.sum = _
+    omega
+
+def Act.isTick : Act → Bool
+  | .tick _ => true
+  | _ => false
+
+/-- the trace with every time step removed -/
+def untimed (tr : List Act) : List Act := tr.filter fun a => !a.isTick
+
+/-- two states that differ at most in the clock -/
+structure SameButClock (s1 s2 : SfSt) : Prop where
+  caching : s1.caching = s2.caching
+  ttl : s1.ttl = s2.ttl
+  table : s1.table = s2.table
+  execs : s1.execs = s2.execs
+  callers : s1.callers = s2.callers
+  cached : s1.cached = s2.cached
+  created : s1.created = s2.created
+
+theorem caching_step (s : SfSt) (a : Act) : (step s a).caching = s.caching := by
+  cases a with
+  | call c key n o =>
+    show (stepCall s c key n o).caching = _
+    unfold stepCall
+    split
+    · rfl
+    · split <;> rfl
+  | bodyStep e =>
+    show (stepBody s e).caching = _
+    unfold stepBody
+    split
+    · rfl
+    · split <;> rfl
+  | finish e =>
+    show (stepFinish s e).caching = _
+    unfold stepFinish
+    split
+    · rfl
+    · split <;> rfl
+  | cancel c => exact (stepCancel_frame s c).1
+  | tick d => rfl
+
+theorem newExec_bare (s : SfSt) (h : s.caching = false) (key n : Nat) (o : Outcome) :
+    newExec s key n o = { key := key, remaining := n, outcome := o, finished := false, hit := false } := by
+  unfold newExec lookupCached
+  simp [h]
+
+/-- without a cache decorator no action reads the clock: the same action keeps two states that differ only in
+the clock that way -/
+theorem sbc_step (s1 s2 : SfSt) (h : SameButClock s1 s2) (hb : s1.caching = false) (a : Act) :
+    SameButClock (step s1 a) (step s2 a) := by
+  obtain ⟨hca, htt, ht, he, hcl, hcd, hcr⟩ := h
+  have hb2 : s2.caching = false := by rw [← hca]; exact hb
+  cases a with
+  | call c key n o =>
+    show SameButClock (stepCall s1 c key n o) (stepCall s2 c key n o)
+    unfold stepCall
+    rw [← hcl, ← ht]
+    cases s1.callers c with
+    | some _ => exact ⟨hca, htt, ht, he, hcl, hcd, hcr⟩
+    | none =>
+      cases s1.table key with
+      | some e => constructor <;> first | assumption | rfl
+      | none =>
+        dsimp only
+        rw [newExec_bare s1 hb, newExec_bare s2 hb2]
+        constructor <;> first | assumption | rfl | (dsimp only; rw [he]) | (dsimp only; rw [hcr])
+  | bodyStep e =>
+    show SameButClock (stepBody s1 e) (stepBody s2 e)
+    unfold stepBody
+    rw [← he]
+    cases s1.execs e with
+    | none => exact ⟨hca, htt, ht, he, hcl, hcd, hcr⟩
+    | some x =>
+      dsimp only
+      split
+      · exact ⟨hca, htt, ht, he, hcl, hcd, hcr⟩
+      · constructor <;> first | assumption | rfl
+  | finish e =>
+    show SameButClock (stepFinish s1 e) (stepFinish s2 e)
+    unfold stepFinish
+    rw [← he]
+    cases s1.execs e with
+    | none => exact ⟨hca, htt, ht, he, hcl, hcd, hcr⟩
+    | some x =>
+      dsimp only
+      split
+      · exact ⟨hca, htt, ht, he, hcl, hcd, hcr⟩
+      · refine ⟨hca, htt, ?_, rfl, ?_, ?_, hcr⟩
+        · dsimp only; rw [ht]
+        · dsimp only; rw [hcl]
+        · dsimp only
+          simp only [hb, hb2, Bool.false_eq_true, false_and, if_false]
+          cases x.outcome <;> exact hcd
+  | cancel c =>
+    show SameButClock (stepCancel s1 c) (stepCancel s2 c)
+    unfold stepCancel
+    rw [← hcl]
+    cases s1.callers c with
+    | none => constructor <;> first | assumption | rfl
+    | some cl =>
+      obtain ⟨e, st⟩ := cl
+      cases st with
+      | waiting => constructor <;> first | assumption | rfl
+      | got o => exact ⟨hca, htt, ht, he, hcl, hcd, hcr⟩
+      | cancelled => exact ⟨hca, htt, ht, he, hcl, hcd, hcr⟩
+  | tick d => exact ⟨hca, htt, ht, he, hcl, hcd, hcr⟩
+
+/-- for the bare decorator, removing every time step from a trace changes nothing but the clock -/
+theorem untimed_run (s1 s2 : SfSt) (h : SameButClock s1 s2) (hb : s1.caching = false) (tr : List Act) :
+    SameButClock (run s1 tr) (run s2 (untimed tr)) := by
+  induction tr generalizing s1 s2 with
+  | nil => exact h
+  | cons a tr ih =>
+    cases ha : a.isTick with
+    | true =>
+      have : untimed (a :: tr) = untimed tr := by simp [untimed, ha]
+      rw [this, run_cons]
+      cases a with
+      | tick d =>
+        exact ih _ _ ⟨h.caching, h.ttl, h.table, h.execs, h.callers, h.cached, h.created⟩ hb
+      | call _ _ _ _ => simp [Act.isTick] at ha
+      | bodyStep _ => simp [Act.isTick] at ha
+      | finish _ => simp [Act.isTick] at ha
+      | cancel _ => simp [Act.isTick] at ha
+    | false =>
+      have : untimed (a :: tr) = a :: untimed tr := by simp [untimed, ha]
+      rw [this, run_cons, run_cons]
+      exact ih _ _ (sbc_step s1 s2 h hb a) (by rw [caching_step]; exact hb)
 
 /-! ### bursts are traces -/
 
